@@ -409,6 +409,12 @@ class ChooseDirective(ExtractableI18NDirective):
                                                   namespaces, pos)
 
     def __call__(self, stream, directives, ctxt, **vars):
+        # the other directives of the element (py:if, py:for, ...) apply to
+        # the result, as they do for i18n:msg
+        return _apply_directives(self._choose(stream, ctxt, vars),
+                                 directives, ctxt, vars)
+
+    def _choose(self, stream, ctxt, vars):
         ctxt.push({'_i18n.choose.params': self.params,
                    '_i18n.choose.singular': None,
                    '_i18n.choose.plural': None})
